@@ -46,7 +46,7 @@ describe(
         "-I on the residual Jacobian diagonal, right-hand side and update, and is linearised at the "
         "pre-execution snapshot."
     ),
-    decided=["6.1 residual scalings exhaustive", "6.2 residual compares distinct states", "6.3 loop exit only on the criterion", "6.4 per-run reset", "6.5 Newton sign parity", "6.6 tolerance and iteration budget are cascaded", "6.7 a sequence stops early on its own tolerance only"],
+    decided=["6.1 residual scalings exhaustive", "6.2 residual compares distinct states", "6.3 loop exit only on the criterion", "6.4 per-run reset", "6.5 Newton sign parity", "6.6 tolerance and iteration budget are cascaded", "6.7 a sequence stops early on its own tolerance only", "6.1 every coupling is monitored by the sub-residual scaling", "6.6 cascade by validated assignment"],
     not_decided=["convergence to the fixed point", "agreement between algorithms", "acceleration/relaxation numerics", "warm start"],
 )
 
